@@ -36,7 +36,8 @@ Clauses(ev) ==
           SamplesAreComponentwiseAllowed |->
               \A s \in 1..Len(ev.samples) : \A k \in 1..Len(ev.dims) : ev.samples[s][k] + 1 \in L!Allowed(L!Piece(ev.m, ev.dims, k))]
     [] ev.ev = "cont" ->   \* continuous laws: nothing discrete to model; only the harness-evaluated atoms are collected
-         [CaseNamesAContinuousLaw |-> ev.kind \in {"Normal", "MultivariateNormalDiag", "SquashedNormal", "SquashedMultivariateNormalDiag"}]
+         [CaseNamesAContinuousLaw |-> ev.kind \in {"Normal", "MultivariateNormalDiag", "SquashedNormal", "SquashedMultivariateNormalDiag",
+                                                  "MLPSACPolicy"}]     \* the continuous-action policy built on the squashed laws (C16)
     [] OTHER ->
          [MaskedActionNeverChosenAndKeylessIsGreedy |->
               \A c \in 1..Len(ev.comps) : L!ChoiceOK(ev.mode, ev.comps[c].ranks, ev.comps[c].m, ev.comps[c].a)]
